@@ -103,11 +103,13 @@ type Config struct {
 	MaxDirs       int
 	MaxOpaque     int
 	TwoSigners    bool
-	Withhold      bool // allow a drawn subset of dependencies to be withheld
-	Attrs         []string
-	Values        []string
-	RefValues     bool // attribute values may reference blobs of the world
-	MaxBlobs      int  // 0 = unbounded; otherwise generation of optional parts stops when reached
+	// ForceTwoSigners makes every world carry claims of both identities.
+	ForceTwoSigners bool
+	Withhold        bool // allow a drawn subset of dependencies to be withheld
+	Attrs           []string
+	Values          []string
+	RefValues       bool // attribute values may reference blobs of the world
+	MaxBlobs        int  // 0 = unbounded; otherwise generation of optional parts stops when reached
 	// DateSpread is the number of distinct seconds (per era) claim dates are drawn
 	// from; 0 means the default of 15. 1 puts all claims of an era into the same
 	// second (dates then differ in their fraction only).
@@ -261,7 +263,7 @@ func Draw(t *rapid.T, cfg Config) *World {
 
 	// identities
 	w.Ids = []*vsign.Identity{vsign.Test()}
-	if cfg.TwoSigners && rapid.IntRange(0, 2).Draw(t, "twoSigners") == 0 {
+	if cfg.ForceTwoSigners || cfg.TwoSigners && rapid.IntRange(0, 2).Draw(t, "twoSigners") == 0 {
 		w.Ids = append(w.Ids, vsign.Second())
 	}
 	if len(w.Ids) == 1 && cfg.TwoSigners && rapid.IntRange(0, 7).Draw(t, "onlySecond") == 0 {
